@@ -872,3 +872,186 @@ Proof.
   - rewrite <- E, feed_app, (feed_one_message id body Hwf).
     destruct (feed reader_idle rest) as [s2 i2]. cbn. destruct (id =? expected); reflexivity.
 Qed.
+
+(* ========================================================================================== *)
+(* F. No stuck state: every reachable state can still end                                      *)
+(* ========================================================================================== *)
+
+Definition completes (c : conn) : list event :=
+  map (fun e => EvComplete (fst e) OReturn) (c_inflight c).
+
+Definition okc (c : conn) : Prop := c_recv c <> RDeadLoop /\ c_send c <> SDead.
+Definition inv2 (c : conn) : Prop := c_fail c = FNone -> okc c.
+
+Lemma teardown_failed cause mark c : cause <> FNone -> c_fail (teardown cause mark c) <> FNone.
+Proof. intros H. dconn c. unfold teardown. cbn [c_fail]. destruct fl; cbn; congruence. Qed.
+
+Lemma teardown_inv2 cause mark c : cause <> FNone -> inv2 c -> inv2 (teardown cause mark c).
+Proof.
+  intros Hc H F. exfalso. revert F. dconn c. unfold teardown. cbn [c_fail].
+  destruct fl; cbn; intros F; try congruence.
+Qed.
+
+Lemma pump_send_nd c : c_send c <> SDead -> c_send (pump_send c) <> SDead.
+Proof.
+  dconn c. unfold pump_send. cbn [c_send c_queue c_stop]. intros H.
+  destruct sd; try exact H. destruct q as [|[i r] q']; [destruct st; cbn; congruence|].
+  destruct r; cbn; congruence.
+Qed.
+
+Lemma pump_inv2 c : inv2 c -> inv2 (pump_send c).
+Proof.
+  intros H F. destruct (pump_frame c) as (R & _ & _ & _ & Fl & _). rewrite Fl in F.
+  destruct (H F) as [A B]. split; [rewrite R; exact A | apply pump_send_nd, B].
+Qed.
+
+Lemma pump_failed c : c_fail c <> FNone -> c_fail (pump_send c) <> FNone.
+Proof. destruct (pump_frame c) as (_ & _ & _ & _ & Fl & _). rewrite Fl. auto. Qed.
+
+Section ServerProofs3.
+  Variable classify : str -> option request.
+  Variable handler : str -> lookup.
+  Notation step := (step classify handler).
+  Notation run := (run classify handler).
+  Notation recv_items := (recv_items classify handler).
+  Notation accept := (accept handler).
+
+  Lemma accept_inv2 id rq c : inv2 c -> inv2 (accept id rq c).
+  Proof.
+    intros H F. destruct (accept_frame handler id rq c) as (A & _ & C & Fl & _).
+    rewrite Fl in F. destruct (H F) as [X Y]. split; [rewrite A | rewrite C]; assumption.
+  Qed.
+
+  Lemma recv_items_inv2 mark items : forall c, inv2 c -> inv2 (recv_items mark items c).
+  Proof.
+    induction items as [|it rest IH]; intros c H; cbn [Rpc.recv_items]; [exact H|].
+    destruct (c_recv c) eqn:R; try exact H.
+    destruct it as [id [body|]|id size].
+    - destruct (classify body) as [rq|].
+      + apply IH, accept_inv2, H.
+      + apply teardown_inv2; [discriminate | exact H].
+    - destruct server_none_rule.
+      + intros F. assert (F' : c_fail c = FNone) by (dconn c; exact F).
+        destruct (H F') as [_ B]. dconn c. split; cbn in *; [discriminate | exact B].
+      + apply teardown_inv2; [discriminate | exact H].
+      + apply teardown_inv2; [discriminate | exact H].
+    - apply teardown_inv2; [discriminate | exact H].
+  Qed.
+
+  Lemma recv_items_failed mark items : forall c,
+    c_fail c <> FNone -> c_fail (recv_items mark items c) <> FNone.
+  Proof.
+    induction items as [|it rest IH]; intros c H; cbn [Rpc.recv_items]; [exact H|].
+    destruct (c_recv c) eqn:R; try exact H.
+    destruct it as [id [body|]|id size].
+    - destruct (classify body) as [rq|].
+      + apply IH. destruct (accept_frame handler id rq c) as (_ & _ & _ & Fl & _). rewrite Fl. exact H.
+      + apply teardown_failed. discriminate.
+    - destruct server_none_rule.
+      + dconn c. exact H.
+      + apply teardown_failed. discriminate.
+      + apply teardown_failed. discriminate.
+    - apply teardown_failed. discriminate.
+  Qed.
+
+  Lemma step_inv2 c e : inv2 c -> inv2 (step c e).
+  Proof.
+    intros H. destruct e as [b|id o| | | | |]; cbn [Rpc.step].
+    - destruct (c_recv c) eqn:R; try exact H.
+      destruct (feed (c_rd c) b) as [rd' items]. apply pump_inv2, recv_items_inv2.
+      intros F. assert (F' : c_fail c = FNone) by (dconn c; exact F).
+      destruct (H F') as [A B]. dconn c. split; assumption.
+    - destruct (take_inflight id (c_inflight c)) as [[n rest]|]; [|exact H].
+      apply pump_inv2. intros F.
+      match type of F with context [enqueue ?r ?c0] => destruct (enqueue_frame r c0) as (A & _ & C & _ & Fl & _) end.
+      rewrite Fl in F. assert (F' : c_fail c = FNone) by (dconn c; exact F).
+      destruct (H F') as [X Y]. split; [rewrite A | rewrite C]; dconn c; assumption.
+    - destruct (c_send c) eqn:S; try exact H.
+      + apply pump_inv2. intros F. assert (F' : c_fail c = FNone) by (dconn c; exact F).
+        destruct (H F') as [X Y]. dconn c. split; cbn in *; [exact X | discriminate].
+      + apply teardown_inv2; [discriminate | exact H].
+    - destruct (c_send c) eqn:S; try exact H.
+      + intros F. assert (F' : c_fail c = FNone) by (dconn c; unfold end_recv in F; cbn in F; destruct rc; exact F).
+        destruct (H F') as [X Y]. dconn c. destruct rc; unfold end_recv; cbn in *; split; cbn; congruence.
+      + apply teardown_inv2; [discriminate | exact H].
+    - destruct (c_recv c) eqn:R; try exact H.
+      apply pump_inv2. intros F. assert (F' : c_fail c = FNone) by (dconn c; exact F).
+      destruct (H F') as [X Y]. dconn c. cbn in *. split; [discriminate | exact Y].
+    - destruct (c_recv c) eqn:R; try exact H. apply teardown_inv2; [discriminate | exact H].
+    - apply pump_inv2. intros F.
+      assert (F' : c_fail c = FNone) by (dconn c; unfold end_recv in F; cbn in F; destruct rc; exact F).
+      destruct (H F') as [X Y]. dconn c. destruct rc; unfold end_recv; cbn in *; split; cbn; congruence.
+  Qed.
+
+  Lemma step_failed c e : c_fail c <> FNone -> c_fail (step c e) <> FNone.
+  Proof.
+    intros H. destruct e as [b|id o| | | | |]; cbn [Rpc.step].
+    - destruct (c_recv c) eqn:R; try exact H.
+      destruct (feed (c_rd c) b) as [rd' items]. apply pump_failed, recv_items_failed. dconn c. exact H.
+    - destruct (take_inflight id (c_inflight c)) as [[n rest]|]; [|exact H].
+      apply pump_failed.
+      match goal with |- context [enqueue ?r ?c0] => destruct (enqueue_frame r c0) as (_ & _ & _ & _ & Fl & _) end.
+      rewrite Fl. dconn c. exact H.
+    - destruct (c_send c) eqn:S; try exact H.
+      + apply pump_failed. dconn c. exact H.
+      + apply teardown_failed. discriminate.
+    - destruct (c_send c) eqn:S; try exact H.
+      + dconn c. unfold end_recv. cbn. destruct rc; exact H.
+      + apply teardown_failed. discriminate.
+    - destruct (c_recv c) eqn:R; try exact H. apply pump_failed. dconn c. exact H.
+    - destruct (c_recv c) eqn:R; try exact H. apply teardown_failed. discriminate.
+    - apply pump_failed. dconn c. unfold end_recv. cbn. destruct rc; exact H.
+  Qed.
+
+  Lemma run_inv2 evs : forall c, inv2 c -> inv2 (run c evs).
+  Proof. induction evs as [|e evs IH]; intros c H; [exact H|]. cbn. apply IH, step_inv2, H. Qed.
+
+  Lemma run_failed evs : forall c, c_fail c <> FNone -> c_fail (run c evs) <> FNone.
+  Proof. induction evs as [|e evs IH]; intros c H; [exact H|]. cbn. apply IH, step_failed, H. Qed.
+
+  Lemma failed_not_up c : c_fail c <> FNone -> status_of c <> StUp.
+  Proof. unfold status_of. destruct (c_fail c); [congruence | discriminate | discriminate]. Qed.
+
+  Lemma two_steps c :
+    c_fail c = FNone -> okc c ->
+    let c2 := step (step c EvStop) EvSendFail in
+    c_fail c2 <> FNone \/
+    (c_fail c2 = FNone /\ c_recv c2 = REnded /\ c_send c2 = SEnded /\ c_inflight c2 = c_inflight c).
+  Proof.
+    intros F [A B]. dconn c. cbn in F, A, B. subst fl.
+    destruct rc; try congruence; destruct sd; try congruence; cbn;
+      try (destruct q as [|[i r] q']; cbn; try destruct r; cbn);
+      try (right; repeat split; reflexivity); try (left; discriminate).
+  Qed.
+
+  Lemma drain_completes l0 : forall c,
+    c_fail c = FNone -> c_recv c = REnded -> c_send c = SEnded -> c_inflight c = l0 ->
+    status_of (run c (map (fun e => EvComplete (fst e) OReturn) l0)) = StClosed.
+  Proof.
+    induction l0 as [|[i n] l0 IH]; intros c F R S I.
+    - dconn c. cbn in *. subst. reflexivity.
+    - cbn [map fst]. change (run c (?e :: ?l)) with (run (step c e) l).
+      apply IH; dconn c; cbn in F, R, S, I; subst; cbn [Rpc.step c_inflight take_inflight];
+        rewrite N.eqb_refl; reflexivity.
+  Qed.
+
+  Lemma never_stuck_from c :
+    inv2 c -> status_of (run c ([EvStop; EvSendFail] ++ completes c)) <> StUp.
+  Proof.
+    intros H. destruct (c_fail c) eqn:F.
+    - change (run c ([EvStop; EvSendFail] ++ completes c))
+        with (run (step (step c EvStop) EvSendFail) (completes c)).
+      destruct (two_steps c F (H F)) as [X | (F2 & R2 & S2 & I2)].
+      + apply failed_not_up, run_failed, X.
+      + unfold completes. rewrite <- I2. rewrite (drain_completes _ _ F2 R2 S2 eq_refl). discriminate.
+    - apply failed_not_up, run_failed. congruence.
+    - apply failed_not_up, run_failed. congruence.
+  Qed.
+
+  Theorem never_stuck (evs : list event) :
+    let c := run conn_init evs in
+    status_of (run c ([EvStop; EvSendFail] ++ completes c)) <> StUp.
+  Proof.
+    intros c. apply never_stuck_from. apply run_inv2. intros _. split; discriminate.
+  Qed.
+End ServerProofs3.
